@@ -400,6 +400,12 @@ func (rs *ResourceSubscription) processGetResponse(payload []byte, err error) (n
 		for sub := range rs.subs {
 			nrs.subs[sub] = struct{}{}
 		}
+
+		// If the normalized query is still being requested, the response to
+		// that request will load the subscribers that were just moved.
+		if nrs.state == stateRequested {
+			return nrs, nil
+		}
 	} else {
 		nrs = rs
 	}
